@@ -248,7 +248,7 @@ def parseAttributes (fuel : Nat) (p : P) (e : Elem) : (P × Elem) × Option PErr
     parseAttributes fuel p { e with attrs := attrsSet e.attrs name { name := name } }
   else
     let (p, opT) := p.next
-    let isBoolean := opT.lit == bs "?"
+    let isBoolean := opT.lit == [63]
     if isBoolean && p.peek.typ != .attrDynamicValue then ((p, e), some (errAt e.origin "expected dynamic value"))
     else if p.peek.typ != .attrDynamicValue && p.peek.typ != .attrEscapedValue then
       ((p, e), some (errAt e.origin "expected attribute value"))
